@@ -3,8 +3,8 @@ Spec: server/AcceptDispatch.tla with commands, injected accept errors, back-off 
 import srvflow
 
 INV = ["T_C05_PausedNoDispatch", "T_C05_UdsReachable", "T_C05_ListenerLive", "T_C05_BackoffExpires"]
-DESIGN = ["MC_cmd_quick.cfg", "MC_cmd_c3.cfg"]
-EDGES = ["MC_cmd_quick.cfg"]
+DESIGN = ["MC_cmd_quick.cfg", "MC_cmd_c3.cfg", "MC_err_c3.cfg", "MC_pause_2l.cfg"]
+EDGES = ["MC_cmd_quick.cfg", "MC_err_c3.cfg", "MC_pause_2l.cfg"]
 THOROUGH = ["MC_cmd_2l.cfg", "MC_cmd_w2.cfg", "MC_cmd_w2b.cfg", "MC_cmd_fault.cfg", "MC_cmd_w2l2e2.cfg"]
 NEGS = {"NEG_UnlinkOnDeregister.cfg": ["C05_UdsReachable"], "NEG_BackoffNeverReregisters.cfg": ["C03_NoLostWake"],
         "NEG_ConnErrIsFatal.cfg": ["C05_ConnErrNoDelay"], "NEG_PauseKeepsRegistered.cfg": ["Steps"],
